@@ -1,29 +1,42 @@
 """C05 — a statement is accepted only if its whole token stream is one grammar sentence.
 
-Oracle: Earley recogniser over the bare grammar (no LR tables / precedence / recovery) + tiling of the source text
-by the token spans.  Generated: corpus sentences, grammar derivations, token mutations, garbage prefix / suffix /
-infix, concatenations.
+Oracle: Earley recogniser over the bare grammar (no LR tables / precedence / recovery) + an account of every character
+of the source text by the token spans (vf/oracles/c05_scan.py: blanks, complete comments, tokens that hide nothing).
+Generated: corpus sentences, grammar derivations, token mutations, garbage prefix / suffix / infix, concatenations and
+statement TEXTS (vf/gens/c05_text.py): separators / comment shapes at every place incl. inside the two-word keywords,
+stripped tails, raw-query bodies, glued tokens, single-character edits.
 """
 import re
 from hypothesis import strategies as st
 
 from vf import findings, hyp
-from vf.gens import corpus, grammar, mutate
+from vf.gens import corpus, grammar, mutate, c05_text
 from vf.oracles.earley import Grammar
+from vf.oracles import c05_scan
 
 PROPERTY = 'C05'
 RULE = ('cases = (dialect, text) built from corpus statements and random grammar derivations by token edits '
         '(delete/dup/replace/insert/swap/truncate), garbage prefix/suffix/infix and statement concatenation + bounded-exhaustive: every production of each live grammar '
-        'with every alternative of each of its nonterminals; '
+        'with every alternative of each of its nonterminals; + text families (bounded-exhaustive: 44 separators / comment '
+        'shapes x every place of small statements incl. inside each two-word keyword; every tail of <= 2 (3) pieces over '
+        'a 17 (9) piece alphabet; 9 raw-query commands x 31 bodies x 10 continuations; random: tokens glued without / '
+        'with blanks and comments and case flips, one-character delete / replace / insert / double); '
         'non-trivial = >=3 tokens, text not verbatim in the corpus, lexes completely, and either accepted (Earley '
         'recogniser consulted) or a non-sentence by the recogniser; distinct by (dialect, token-type sequence)')
 ASSUMPTIONS = ['Parser._grammar.Productions is the grammar (read at run time)',
-               'the lexer token stream is taken as given; character skipping is judged by the tiling clause only',
+               'the lexer token types are taken as given; the characters are accounted for by an own left-to-right reader: '
+               'between tokens only blanks and complete comments, inside a non-quoted token only its words (two-word '
+               'keywords: blanks of the \\s class, comments or one underscore between the words)',
                'soundness direction only: the LALR parser may reject sentences of the bare grammar']
-FLOORS = {'quick': {'accepted': 1500, 'non-sentence': 1500, 'non-sentence-valid-suffix': 300, '__nontrivial__': 2500},
-          'thorough': {'accepted': 15000, 'non-sentence': 15000, 'non-sentence-valid-suffix': 3000,
-                       '__nontrivial__': 25000}}
+_TEXT_FLOORS = {'text:sep': 11000, 'text:sep:inside': 1400, 'text:sep:gap': 6800, 'text:sep:lead': 1400,
+                'text:sep:trail': 1400, 'text:tail': 5000, 'text:raw': 3300, 'text:raw:after': 3000,
+                'text:accounted': 5000}
+FLOORS = {'quick': dict({'accepted': 1500, 'non-sentence': 1500, 'non-sentence-valid-suffix': 300, '__nontrivial__': 2500,
+                         'text:glue': 250, 'text:char': 250}, **_TEXT_FLOORS),
+          'thorough': dict({'accepted': 15000, 'non-sentence': 15000, 'non-sentence-valid-suffix': 3000,
+                            '__nontrivial__': 25000, 'text:glue': 2500, 'text:char': 2500}, **_TEXT_FLOORS)}
 N = {'quick': 800, 'thorough': 8000}
+N_TEXT = {'quick': 120, 'thorough': 1200}     # per shard: glue; char gets twice as many
 
 _G = {}
 _CORPUS_TEXTS = set()
@@ -76,7 +89,7 @@ def judge(case, col):
     if spans is None:
         if accepted:
             return [findings.record('accepted-but-lexer-rejects', 'lexer', [], cfg, '', sql)]
-        col.case((d, 'lexerror', s), False, ['lexerror'])
+        col.case((d, 'lexerror', s), False, ['lexerror'] + list(case.get('tags', ())))
         return []
     types = [x[0] for x in spans]
     sentence = g.accepts(types)
@@ -86,24 +99,20 @@ def judge(case, col):
     classes = ['origin:' + case.get('origin', '?').replace(':multiline', '').replace(':twolines', ''), 'dialect:' + d]
     if '\n' in sql:
         classes.append('multiline')
+    classes += list(case.get('tags', ()))
     if accepted:
         classes.append('accepted')
+        if case.get('tags'):
+            classes.append('text:accounted')
         if not sentence:
             k = g.viable_prefix_len(types)
             out.append(findings.record('accepted-non-sentence', 'earley',
                                        ['origin:' + case.get('origin', '?')], cfg,
                                        f'token types {types}; longest viable prefix {k}', sql))
-        # tiling
-        pos = 0
-        for (ty, src, i, e) in spans:
-            if not mutate.WS_RE.fullmatch(s[pos:i]):
-                out.append(findings.record('skipped-characters', 'lexer', [], cfg,
-                                           f'gap {s[pos:i]!r} before token {src!r} at {i}', sql))
-                break
-            pos = e
-        else:
-            if not mutate.WS_RE.fullmatch(s[pos:]):
-                out.append(findings.record('skipped-characters', 'lexer', [], cfg, f'tail {s[pos:]!r}', sql))
+        # every character of the text is a blank, a complete comment or part of exactly one token that hides nothing
+        # (left-to-right reader of vf/oracles/c05_scan.py; the spans are the lexer's, the reading of them is not)
+        for where, why in c05_scan.account(s, spans):
+            out.append(findings.record('skipped-characters', 'lexer:' + where, [], cfg, why, sql))
     else:
         if sentence:
             classes.append('sentence-rejected-by-LALR')
@@ -176,4 +185,14 @@ def run_shard(col, k, nshards, tier, seed):
             c = {'dialect': d, 'sql': ' '.join(toks), 'origin': 'pairs:production'}
             for rec in judge(c, col):
                 col.fail(rec, c)
+    # bounded-exhaustive text families
+    for i, c in enumerate(c05_text.static_cases()):
+        if i % nshards == k:
+            for rec in judge(c, col):
+                col.fail(rec, c)
+    if k == 0:
+        col.exhaustive_parts.append('text families sep / tail / raw of vf/gens/c05_text.py')
     hyp.explore(col, cases(), judge, N[tier], seed)
+    # separate runs: inside one_of Hypothesis draws the families very unevenly
+    hyp.explore(col, c05_text.text_cases(_TOK, 'glue'), judge, N_TEXT[tier], seed)
+    hyp.explore(col, c05_text.text_cases(_TOK, 'char'), judge, 2 * N_TEXT[tier], seed)
